@@ -752,6 +752,23 @@ class MonC06(object):
                         if s is None or k == 0 or s > self.rec[k - 1].step:
                             ok = False
                 tr.counters["C06.none_checks"] += 1
+                # strict reading: a finish-to-start predecessor that is FINISHED at this very step was
+                # finished by the update of this step, which also decides readiness; SS predecessors can
+                # only start after an update, so for them "has started" means started by the previous step
+                now_ok = True
+                for pred, dep in t.input_task_list:
+                    if exempt(pred):
+                        continue
+                    if dep == DEP.FS and snap.tstate.get(pred) != TS.FINISHED:
+                        now_ok = False
+                    elif dep == DEP.SS:
+                        s = self.started_at.get(pred)
+                        if s is None or k == 0 or s > self.rec[k - 1].step:
+                            now_ok = False
+                if now_ok and not ok:
+                    tr.violate("C06", "C06/none-although-dependencies-hold-now",
+                               "task %s logged NONE at working step %d although its FS predecessors are FINISHED at that step and its SS predecessors have started" % (t.ID, snap.step), task=t, k=k)
+                    break
                 if ok:
                     ssf = [p for p, d in t.input_task_list if d == DEP.SS and k > 0 and self.rec[k - 1].tstate.get(p) == TS.FINISHED]
                     mech = "C06/none-with-satisfied-dependencies"
